@@ -39,6 +39,9 @@ func IMMSites() []Site {
 		{Tag: "index p.Mp[k]", Stmt: `p.Mp["k"] = 1`, Subj: SubjT, Codes: i4},
 		{Tag: "index tuple x.Xs[0],y", Stmt: "x.Xs[0], y = 1, 2", Subj: SubjT, Codes: i4},
 		{Tag: "index o.In.Xs[0]", Stmt: "o.In.Xs[0] = 1", Subj: SubjT, Codes: i4},
+		{Tag: "index defined slice type x.Ls[0]", Stmt: "x.Ls[0] = 1", Subj: SubjT, Codes: i4, Core: true},
+		{Tag: "index defined map type p.Pm[k]", Stmt: `p.Pm["k"] = 1`, Subj: SubjT, Codes: i4},
+		{Tag: "index defined array type x.Ar[1]", Stmt: "x.Ar[1] = 1", Subj: SubjT, Codes: i4},
 		// @mutable fields
 		{Tag: "mut assign x.M", Stmt: "x.M = 1", Subj: SubjTMut, Codes: i1, Core: true},
 		{Tag: "mut compound p.M+=", Stmt: "p.M += 1", Subj: SubjTMut, Codes: i2},
